@@ -543,3 +543,33 @@ Example ex_guarded_ok :
    ALoaded (mkra 1 0 (mkph 1 0 [170] (Some [1]) 1) (Some [1]) [170] [7] [170] [9]);
    AErr (ERoundUnknown 3 0)].
 Proof. split; vm_compute; reflexivity. Qed.
+
+(** model_satisfies_monitor for the monitor the check evaluates, ALL op sequences: the
+    model never departs from the full contract while the calls so far satisfy the guard;
+    so [a_mon_checked] of a model trace is 0 or the code of a recorded finding class reached
+    outside the guard. *)
+Lemma action_model_never_diverges_in_guard : forall ops,
+  a_div_in_guard 0 [] (trace astep ainit ops) true = None.
+Proof.
+  assert (G : forall ops hist s i g, (g = true -> a_RG hist s) ->
+            a_div_in_guard i hist (trace astep s ops) g = None).
+  { induction ops as [|o ops IH]; intros hist s i g Hg; [reflexivity|].
+    cbn [trace]. destruct (astep s o) as [s' out] eqn:E. cbn [a_div_in_guard].
+    destruct (g && a_guard hist o) eqn:Eg.
+    - apply andb_true_iff in Eg as [-> Hgo].
+      destruct (a_RG_step hist s o (Hg eq_refl) Hgo) as [Ho HRG]. rewrite E in Ho, HRG. simpl in Ho, HRG.
+      rewrite <- Ho, aout_eqb_refl. apply IH. intros _. exact HRG.
+    - destruct (aout_eqb (a_expected hist o) out); [|reflexivity].
+      apply IH. discriminate. }
+  intros ops. apply G. intros _. split.
+  - intros h r; reflexivity.
+  - split; [constructor|]. intros x k1 k2 H; destruct H.
+Qed.
+
+Lemma action_model_satisfies_checked_monitor : forall ops,
+  a_mon_checked (trace astep ainit ops) = a_mon (trace astep ainit ops) /\
+  (a_guards (trace astep ainit ops) = true -> a_mon_checked (trace astep ainit ops) = 0).
+Proof.
+  intros ops. unfold a_mon_checked. rewrite action_model_never_diverges_in_guard. split; auto.
+  apply action_contract_partial.
+Qed.
